@@ -198,10 +198,18 @@ def scope_restore(ctx, cfg, fs):
                'ParseCommand::eval (adjacent): %d Ok path(s) return with the caller\'s scope = %s; allowed: the scope at entry or the command\'s own `cur..end` narrowing - an adjacency narrowing left in place hides the items to the right of the block from the leftover check' % (len(v), k),
                where=b.where(ok_site[0]), cfg=cfg)
     # non-adjacent branch: Ok flows only from run_subparser (whose leftover check closes the narrowed scope)
-    direct = [c for c in b.calls() if c.dest == [0, []] and c.is_(r'Result::<.*>::map_err')]
-    good = bool(direct)
-    for c in direct:
-        rs = provenance(b, c.args[0], c.bb, 'term', through=None)
-        good &= bool(rs) and all(r.kind == 'call' and r.call.is_(r'OptionParser::<T>::run_subparser$') for r in rs)
+    # (`run.map_err(wrap)` returned as it is, or `Ok(v)` with v the Ok payload of a run)
+    good = True; n_src = 0
+    for c in b.calls():
+        if c.dest == [0, []] and not c.is_(r'from_residual$'):
+            rs = provenance(b, c.args[0], c.bb, 'term', through=None) if c.is_(r'Result::<.*>::map_err') and c.args else []
+            good &= bool(rs) and all(r.kind == 'call' and r.call.is_(r'OptionParser::<T>::run_subparser$') for r in rs)
+            n_src += 1
+    for i, k, st in b.stmts():
+        if st['k'] == 'assign' and st['lhs'] == [0, []] and st['rv']['k'] == 'agg' and st['rv'].get('variant') == 'Ok':
+            rs = provenance(b, st['rv']['fields'][0], i, k, through=[r'Result::<.*>::map_err'])
+            good &= bool(rs) and all(r.kind == 'call' and r.call.is_(r'OptionParser::<T>::run_subparser$') and r.path[-2:] == ['as Ok', '0'] for r in rs)
+            n_src += 1
+    good &= n_src > 0
     ctx.ob('R.scope-restore', 'ParseCommand::eval:plain-ok-from-run_subparser', good,
            'the plain subcommand branch returns exactly the outcome of run_subparser (narrowed scope closed by its leftover check): %s' % good, where=b.where(), cfg=cfg)
